@@ -93,8 +93,17 @@ def make_case(ctx, cid, en, batch=None, mode=None):
     if rerun:
         extra.append(enumgen.generated_sexp(en, decl))
     variants = [(lbl, dict(files, **lay["extra"]), cur) for lbl, files, cur in variants]
-    case = {"id": cid, "en": en, "decl": decl, "files": lay["files"], "mode": lay["mode"], "spread": lay["spread"],
-            "runs": [{"args": ["enum"] + lay["sel"]}] * (2 if rerun else 1), "rerun": rerun,
+    run = {"args": ["enum"] + lay["sel"]}
+    hist = enumgen.edit_history(ctx, en, lay) if (decl and ctx.rng.random() < 0.5) else None
+    files0, runs, edit = lay["files"], [run] * (2 if rerun else 1), "none"
+    if hist:
+        files0, steps, edit = hist
+        runs = [run] + steps + [run]
+        if not rerun:
+            rerun = True
+            extra.append(enumgen.generated_sexp(en, decl))
+    case = {"id": cid, "en": en, "decl": decl, "files": files0, "mode": lay["mode"], "spread": lay["spread"], "edit": edit,
+            "runs": runs, "rerun": rerun,
             "oracle": {".": enumgen.oracle_c04(en, decl, win)} if decl else {},
             "sexp": enumgen.case_sexp(cid, "c04", en, extra), "cmd": "shoot enum " + " ".join(lay["sel"]),
             "variants": variants, "shape": en.get("shape") if en.get("shape") in VARIANTS else cl}
@@ -241,6 +250,7 @@ def run(ctx, obl):
             res.hist("shape", c["shape"])
             res.hist("run-mode", c["mode"] + ("+spread" if c["spread"] and c["mode"].startswith("file") else ""))
             res.hist("rerun", str(c["rerun"]))
+            res.hist("edit-history", c["edit"])
             res.hist("requested-feature", c["en"].get("feature", "random"))
             res.hist("stale-variants", str(len(c["variants"])))
             for lbl, _, _ in c["variants"]:
